@@ -1,0 +1,79 @@
+//go:build verif
+
+// Contracts for the verification machinery in /verif (comment only).
+package client
+
+/*@ immutable client.client.list client.client.watch
+@*/
+
+/*@ func client.ForResource
+  props C20
+  fresh result
+  at call(makeResourceListFn) assert [lists-the-given-resource-in-the-given-namespace] (and (= $0 {c}) (= $1 {res}) (= $2 {ns}))
+  at call(makeResourceWatchFn) assert [watches-the-given-resource-in-the-given-namespace] (and (= $0 {c}) (= $1 {res}) (= $2 {ns}))
+  ensures (not (= result vnil))
+@*/
+/*@ func client.NewClient
+  props C20
+  fresh result
+  ensures (not (= result vnil))
+@*/
+/*@ func client.makeResourceListFn
+  props C20
+  ensures (not (= result vnil))
+@*/
+/*@ func client.makeResourceWatchFn
+  props C20
+  ensures (not (= result vnil))
+@*/
+
+/*@ iface client.restRequester.Get
+  fresh result
+  ensures (not (= result vnil))
+@*/
+/*@ assumed func (*client-go/rest.Request).Namespace
+  ensures (= result {r})
+@*/
+/*@ assumed func (*client-go/rest.Request).Resource
+  ensures (= result {r})
+@*/
+/*@ assumed func (*client-go/rest.Request).Prefix
+  ensures (= result {r})
+@*/
+/*@ assumed func (*client-go/rest.Request).VersionedParams
+  ensures (= result {r})
+@*/
+
+/*@ func client.makeResourceListFn$1
+  props C20
+  note the request builder chain of client-go returns its receiver; the meaning of the chain (URL, all namespaces for an empty namespace) is client-go's
+  requires (not (= {c} vnil))
+  ghost req : V := vnil
+  ghost nsSet : Bool := false
+  ghost resSet : Bool := false
+  at call(Get).after set req := $result
+  at call(Prefix) assert [opt:a-list-request-has-no-path-prefix] false
+  at call(Namespace) assert [namespace-of-the-client-on-a-fresh-get-request] (and (= $0 req) (= $1 {ns}) (not nsSet))
+  at call(Namespace) set nsSet := true
+  at call(Resource) assert [resource-of-the-client-after-the-namespace] (and (= $0 req) (= $1 {res}) nsSet (not resSet))
+  at call(Resource) set resSet := true
+  at call(VersionedParams) assert [caller-options-after-namespace-and-resource] (and (= $0 req) nsSet resSet)
+  at call(Do) assert [a-plain-list-request-no-watch-prefix-with-the-callers-context] (and (= $0 req) nsSet resSet (= $1 {ctx}))
+@*/
+/*@ func client.makeResourceWatchFn$1
+  props C20
+  requires (not (= {c} vnil))
+  ghost req : V := vnil
+  ghost nsSet : Bool := false
+  ghost resSet : Bool := false
+  ghost prefixed : Bool := false
+  at call(Get).after set req := $result
+  at call(Prefix) assert [watch-prefix-first] (and (= $0 req) (not nsSet) (not resSet))
+  at call(Prefix) set prefixed := true
+  at call(Namespace) assert [namespace-of-the-client] (and (= $0 req) (= $1 {ns}) (not nsSet))
+  at call(Namespace) set nsSet := true
+  at call(Resource) assert [resource-of-the-client-after-the-namespace] (and (= $0 req) (= $1 {res}) nsSet (not resSet))
+  at call(Resource) set resSet := true
+  at call(VersionedParams) assert [caller-options-after-namespace-and-resource] (and (= $0 req) nsSet resSet)
+  at call(Watch) assert [a-watch-request-with-the-callers-context] (and (= $0 req) nsSet resSet prefixed (= $1 {ctx}))
+@*/
